@@ -155,7 +155,7 @@ PY
     for ((i=0; i<shards; i++)); do
       [ "$(cat "$work/rc-$i")" != 0 ] && { tail -c 20000 "$work/log-$i.txt" > "$rdir/$tier-seed$SEED-$stamp.log"; break; }
     done
-    grep -h -A12 -- '--- FAIL\|^panic:\|^fatal error:' "$work"/log-*.txt | head -60
+    grep -h -v 'rapid\] draw' "$work"/log-*.txt | grep -B25 -A3 -- '--- FAIL\|^panic:\|^fatal error:' | cut -c1-1200 | head -70
     echo "VIOLATION property=$id replay=$replay"
     exit 1
   fi
